@@ -44,6 +44,10 @@ type Case struct {
 	Expect    string // "" normal; "reach" = vacuity twin (must reach tags)
 	Group     string // evidence grouping
 	MustReach []string // reachability witnesses besides "end"
+	Portfolio bool     // queries the primary solver leaves undecided go to z3 4.8.12 and then cvc5
+	SoftBranch bool    // undecided branch-feasibility queries (budget SoftMs) keep the branch instead of failing the case
+	SoftMs    int
+	QueryMs   int      // per-query budget of the primary solver for this case (0: the runner's)
 }
 
 func (c Case) Key() string {
@@ -298,7 +302,7 @@ func (r *Runner) program(config string, pkgs []string) (*sym.Program, error) {
 }
 
 // RunCase executes one case on a dedicated solver.
-func (r *Runner) RunCase(p *sym.Program, c Case, solver, cross *smt.Solver) (res CaseResult) {
+func (r *Runner) RunCase(p *sym.Program, c Case, solver, cross *smt.Solver, alt ...*smt.Solver) (res CaseResult) {
 	t0 := time.Now()
 	res.Case = c
 	ctx := smt.NewCtx()
@@ -310,6 +314,18 @@ func (r *Runner) RunCase(p *sym.Program, c Case, solver, cross *smt.Solver) (res
 	x := &sym.Explorer{C: ctx, S: solver, S2: cross, Params: c.Params,
 		MaxSteps: 50_000_000, MaxUnwind: 100000, MaxAlloc: 1 << 22, MaxPaths: 200000,
 		Reached: map[string]bool{}, Vars: map[string]*smt.Term{}, CrossEvery: 50}
+	for _, a := range alt {
+		if a != nil {
+			a.Reset()
+			x.Alt = append(x.Alt, a)
+		}
+	}
+	x.SoftBranch, x.SoftMs = c.SoftBranch, c.SoftMs
+	if c.QueryMs > 0 {
+		old := solver.TimeoutMs
+		solver.SetTimeout(c.QueryMs)
+		defer solver.SetTimeout(old)
+	}
 	if c.MaxUnwind > 0 {
 		x.MaxUnwind = c.MaxUnwind
 	}
